@@ -42,6 +42,39 @@ def is_self(t):
 # ---------------------------------------------------------------------------------------------- per-arm evaluation
 
 
+def as_guarded_match(fn, src):
+    """`if let P = x { if c { return a; } } b` and `match x { P => if c { a } else { b }, .. }` read as the guarded match `match x { P if c => a, P => b, .. }`
+    (canonical form: if-let as match, early returns eliminated; then an arm whose value is an if/else is split on its condition)."""
+    if any(s_["k"] == "expr" and s_["e"]["k"] == "match" for s_ in fn.body["stmts"]) and not any(x["k"] == "return" for x in walk(fn.body)):
+        g = fn
+    else:
+        from .canon import canon_view
+
+        g = canon_view(fn, src, iflet=True, helpers=False)
+    import copy
+
+    g2 = copy.copy(g)
+    body = dict(g.body)
+    stmts = []
+    for st in body["stmts"]:
+        if st["k"] == "expr" and st["e"]["k"] == "match":
+            arms = []
+            for a in st["e"]["arms"]:
+                b = a["body"]
+                while b["k"] == "block" and len(b["stmts"]) == 1 and b["stmts"][0]["k"] == "expr":
+                    b = b["stmts"][0]["e"]
+                if not a.get("guard") and b["k"] == "if" and b["cond"]["k"] != "letcond" and b.get("else") is not None:
+                    arms.append(dict(a, guard=b["cond"], body=b["then"]))
+                    arms.append(dict(a, body=b["else"]))
+                else:
+                    arms.append(a)
+            st = dict(st, e=dict(st["e"], arms=arms))
+        stmts.append(st)
+    body["stmts"] = stmts
+    g2.node = dict(g.node, body=body)
+    return g2
+
+
 def top_match(fn):
     """The (single) `match` that is a top-level statement of the function body, with its position."""
     stmts = fn.body["stmts"]
@@ -510,7 +543,7 @@ def f3(rep, src):
         if v not in named:
             rep.instance("F3", "filter/" + v, {"arm": "covered by a catch-all"}, nontrivial=False)
     # --- filter_by_value
-    fn = src.one_fn(name="filter_by_value", file=EXPR, self_ty="DataType")
+    fn = as_guarded_match(src.one_fn(name="filter_by_value", file=EXPR, self_ty="DataType"), src)
     for a, alt, res, scrut, guard, env, ev in arms_of(fn):
         where = "src/%s:%d" % (EXPR, a["l"])
         name = last(alt["path"]["p"]) if alt["k"] == "tuplestruct" else ("default" if alt["k"] in ("wild", "ident") else show(alt, 40))
